@@ -74,4 +74,11 @@ def r6_construction(run, tree):
     cf.check_vector_constructor(run, tree)
 
 
-RULES = [r1_forwarding, r2_lifting, r3_cross, r4_norm, r5_dot, r6_construction]
+def r7_conversion(run, tree):
+    run.rule("C09.R7", "the conversion every component operation brings its right operand through is exact (shared with C02/C08): Array.to scales by the unit ratio, no cast back",
+             "D7 fold of Array.to", "", floor=6)
+    from . import array_folds as af
+    af.check_to_fold(run, tree)
+
+
+RULES = [r1_forwarding, r2_lifting, r3_cross, r4_norm, r5_dot, r6_construction, r7_conversion]
